@@ -486,8 +486,13 @@ def finish(run, module, audit, build_ok, build_out):
               coverage=cov,
               assumptions=getattr(module, "ASSUMPTIONS", []),
               wall_s=round(wall, 2), violations=violations)
-    os.makedirs(os.path.join(VERIF, "evidence"), exist_ok=True)
-    with open(os.path.join(VERIF, "evidence", prop + ".json"), "w") as fd:
+    # evidence/ holds runs against /repo only; runs against another tree
+    # (VERIF_REPO=<scratch worktree>, used to try seeded changes) go elsewhere
+    evdir = os.path.join(VERIF, "evidence")
+    if os.path.realpath(REPO) != "/repo":
+        evdir = "/var/tmp/verif-evidence-other-tree"
+    os.makedirs(evdir, exist_ok=True)
+    with open(os.path.join(evdir, prop + ".json"), "w") as fd:
         json.dump(ev, fd, indent=1, default=str)
     for ln in lines:
         print(ln)
